@@ -23,6 +23,7 @@ const modPath = "github.com/resgateio/resgate"
 // rules work on. Everything is rebuilt from the working tree on every run.
 type Prog struct {
 	roleMemo    map[string]*ssa.Function
+	esStates    map[*ssa.Function]map[ssa.Instruction]int
 	implDepth   int                                  // recursion depth of helperImplies
 	boundMakers map[*ssa.Function][]*ssa.MakeClosure // bound-method wrapper -> the places that make the method value
 	fieldSeen   map[string]string                    // anchor -> type, recorded for `resverif anchors`
